@@ -546,7 +546,7 @@ def check_c18(res, ctx):
                 res.violation("variable %s in %s (%s) is accessed in %s with access kind '%s': mutable shared state" % (name, f, storage, fn, kind),
                               ["# witness: clang AST of %s: reference to %s in %s is neither a read nor an address passed to a const parameter" % (f, name, fn)],
                               found_input=True)
-        if storage != "file-scope":
+        if storage != "file-scope" and const != "true":
             ctx.found_input = True
             res.violation("function-local static variable %s in %s" % (name, f), ["# witness: %s:%s" % (f, name)], found_input=True)
     res.add_cases(cases or ["(no static-storage variables)"], rule="every reference to every static-storage variable of src/*.c (complete, from the clang AST)")
